@@ -30,7 +30,7 @@ MODS = ["AsmjitVerif.Props.C03", "AsmjitVerif.Props.C03E"]
 M64 = (1 << 64) - 1
 
 JK = ["jmp", "jz", "call", "jecxz", "loop"]
-MK = ["lea", "mov", "addi8", "movi32", "cmpi16"]
+MK = ["lea", "mov", "addi8", "movi32", "cmpi16", "ldeax", "steax", "ldrax"]
 AK = ["b", "bl", "bcond", "cbz", "tbz", "adr", "adrp", "ldr"]
 BASES = [0x1000, 0x7FFFF000, 0x80000000, 0xFFFFF000, 1 << 32, (1 << 47) - 4096, 1 << 63, (1 << 64) - 65536]
 
@@ -89,7 +89,13 @@ class Gen:
                 t &= ~0xFFF
             self.ops.append("a64abs %s %x" % (k, t & M64))
         else:
-            self.ops.append("jmpabs %s %s %x" % (r.choice(("jmp", "call", "jmp", "call", "jz", "jecxz")), r.choice("dddl"), t & M64))
+            if r.random() < 0.5:
+                # absolute memory operand (no base / index / label): rel and abs forms, with and without trailing immediates
+                t = r.choice((0x1000, 0x12345678, 0x7FFFFFF0, 0x80000000, 0xFFFFFFF0, 0xFFFFFFFF80000000, M64 - 0xFFF, 0x100000000,
+                              0x7FFFFFFFF000, r.getrandbits(31), r.getrandbits(32), r.getrandbits(47), (-r.getrandbits(31)) & M64))
+                self.ops.append("memabs %s %s %x" % (r.choice(MK), r.choice("dddar"), t & M64))
+            else:
+                self.ops.append("jmpabs %s %s %x" % (r.choice(("jmp", "call", "jmp", "call", "jz", "jecxz")), r.choice("dddl"), t & M64))
 
     def pad(self):
         r = self.r
